@@ -17,6 +17,7 @@ def micro? (j : Json) : Option Micro :=
   | .arr #[.str "del", g] => do some (.del (← nat? g))
   | .arr #[.str "delSpace", c] => do some (.delSpace (← nat? c))
   | .arr #[.str "bump", c, k] => do some (.bump (← nat? c) (← nat? k))
+  | .arr #[.str "bumpReg", c, k] => do some (.bumpReg (← nat? c) (← nat? k))
   | .arr #[.str "setCtr", c, v] => do some (.setCtr (← nat? c) (← nat? v))
   | .arr #[.str "add", c, g, k] => do some (.add (← nat? c) (← nat? g) (← nat? k))
   | .arr #[.str "addFrom", c, g, lo, k] => do some (.addFrom (← nat? c) (← nat? g) (← nat? lo) (← nat? k))
@@ -55,15 +56,17 @@ def sortNodes (l : List Node) : List Node := l.foldr insertSorted []
 
 def handle (j : Json) : Json :=
   match j with
-  | .arr #[.str "path", .str name, tr, .str o] =>
-    -- is the observed trace of one call a path of the generated skeleton, and what does the lock model say?
-    match FimVerif.Gen.LockCfg.methods.lookup name, micros? tr with
-    | some s, some t =>
+  | .arr #[.str "path", .str name, g, k, tr, .str o] =>
+    -- is the observed trace of one call (on graph g, importing k nodes) a path of the generated skeleton with its symbols
+    -- instantiated, and what does the lock model say?
+    match FimVerif.Gen.LockCfg.methods.lookup name, micros? tr, nat? g, nat? k with
+    | some s0, some t, some g, some k =>
+      let s := instStmt g k s0
       let isP := if o == "done" then isPath s t .norm || isPath s t .ret else isPath s t .exc
       ok (Json.mkObj [("cmp", Json.mkObj [("path", Json.bool isP), ("lock", lockJson (lockRun t))]),
                       ("info", Json.mkObj [("accepts", Json.bool (accepts t))])])
-    | none, _ => err "unknown-method"
-    | _, _ => err "bad-args"
+    | none, _, _, _ => err "unknown-method"
+    | _, _, _, _ => err "bad-args"
   | .arr #[.str "obligations", .str name] =>
     match FimVerif.Gen.LockCfg.methods.lookup name with
     | some s => ok (Json.mkObj [("balanced", Json.bool (balanced s)), ("neutral", Json.bool (lockNeutral s)),
